@@ -207,6 +207,8 @@ class Data(Entity):
             raise TypeError(f"Association must be of type {DataAssociationEnum}")
 
         self._association = value
+        if getattr(self, "_on_file", False):
+            self.workspace.update_attribute(self, "attributes")
 
     @property
     def modifiable(self) -> bool:
